@@ -80,10 +80,17 @@ def worker_main(prop_id, tier, w, nworkers, seed, outfile):
     t0 = time.time()
     budget_s = float(os.environ.get("VERIF_BUDGET_S", "0") or 0)
 
+    st["nontrivial_n"] = 0
+
     def account(case, oc):
-        st["evaluations"] += 1
-        for lb in oc.labels:
-            st["labels"][lb] = st["labels"].get(lb, 0) + 1
+        st["evaluations"] += getattr(oc, "evals", 1)
+        st["nontrivial_n"] += getattr(oc, "nontrivial_n", 0)
+        if getattr(oc, "label_counts", None):
+            for lb, cnt in oc.label_counts.items():
+                st["labels"][lb] = st["labels"].get(lb, 0) + cnt
+        else:
+            for lb in oc.labels:
+                st["labels"][lb] = st["labels"].get(lb, 0) + 1
         if oc.nontrivial:
             h = case_hash(case)
             if h not in st["nontrivial"]:
@@ -262,7 +269,7 @@ def run_check(prop_id, tier, seed, jobs):
     missing = [lb for lb in meta.get("ESSENTIAL", []) if labels.get(lb, 0) == 0]
     coverage = {
         "evaluations": evaluations,
-        "distinct_nontrivial": len(nontrivial),
+        "distinct_nontrivial": len(nontrivial) + sum(p.get("nontrivial_n", 0) for p in parts),
         "rule": meta["RULE"],
         "samples": samples,
         "labels": dict(sorted(labels.items())),
@@ -312,7 +319,7 @@ def run_check(prop_id, tier, seed, jobs):
         print("KNOWN-FINDING: property=%s %s (signature %s, observed %d times in this run)" % (
             prop_id, text, sig, known_hits.get(sig, 0)))
     print("property=%s tier=%s seed=%d evaluations=%d distinct_nontrivial=%d wall=%.1fs" % (
-        prop_id, tier, seed, evaluations, len(nontrivial), time.time() - t0))
+        prop_id, tier, seed, evaluations, coverage["distinct_nontrivial"], time.time() - t0))
     if missing:
         print("NOTE: labels never produced in this run: %s" % ", ".join(missing))
     collected = {}
